@@ -3,8 +3,8 @@
 Generates the Hydro program corpus of the hv_hydro harness from *program terms*:
 
   flows/src/progs.rs   one `pub fn pNNN(in0, in1)` per term, written against the safe hydro_lang API
-  src/proglist.rs      `prog!(pNNN);` module instantiations + `table()` (name, mode tags, kind, term, run fn) for main.rs
-  src/buildlist.rs     `generate_all(out_dir)` for build.rs
+  progs/src/proglist.rs   `prog!(pNNN);` module instantiations + `table()` (name, mode tags, kind, term, run fn)
+  progs/src/buildlist.rs  `generate_all(out_dir)` for progs/build.rs
 
 A term is the prefix notation understood by the Lean driver (`Model/Catalogue.lean`) and by the
 reference interpreter in `src/refint.rs`; each operator / closure code maps to one fixed Rust snippet below.
@@ -30,6 +30,8 @@ MAPF = {   # code: (elem_in, elem_out, rust closure for Stream::map, rust closur
     "vinc": ("P", "P", "|(k, v)| (k, v + 1)", "|v| v + 1"),
     "flat": ("J", "P", "|(k, (a, b))| (k, a * 100 + b)", None),
     "idx": ("E", "P", "|(i, x)| (x, i as i64)", None),
+    # keyed only: values of `KeyedStream::enumerate()` are (usize, i64)
+    "kidx": ("J", "P", None, "|(i, v)| v * 100 + i as i64"),
 }
 PREDF = {  # code: (elem, closure on &T, closure on &V for keyed or None)
     "even": ("I", "|x| *x % 2 == 0", None),
@@ -61,9 +63,13 @@ REDF = {
     "rmin": "|acc, x| if x < *acc { *acc = x }",
     "rlast": "|acc, x| *acc = x",
     "rpoly": "|acc, x| *acc = *acc * 3 + x",
+    # with a commutativity proof (usable on NoOrder input)
+    "rsumc": "|acc, x| *acc += x, commutative = manual_proof!(/** addition */)",
+    "rmaxc": "|acc, x| if x > *acc { *acc = x }, commutative = manual_proof!(/** max */)",
 }
+REDCOMM = ("rsumc", "rmaxc")
 
-STREAM = ("sT", "sK", "sN")
+STREAM = ("sT", "sK", "sN", "sKN")
 
 
 class Bad(Exception):
@@ -94,7 +100,8 @@ def parse(tokens):
 
 ARITY = {"in0": 0, "in1": 0, "const": 0, "map": 1, "filter": 1, "flatmap": 1, "filtermap": 1, "enumerate": 1,
          "scan": 1, "unique": 1, "kscan": 1, "union": 2, "chain": 2, "join": 2, "fold": 1, "reduce": 1, "kfold": 1,
-         "foldb": 1, "xsing": 2, "smap": 1, "sfilter": 1, "reduceb": 1, "joinb": 2, "antijoinb": 2, "notinb": 2}
+         "foldb": 1, "xsing": 2, "smap": 1, "sfilter": 1, "reduceb": 1, "joinb": 2, "antijoinb": 2, "notinb": 2,
+         "kreduce": 1, "klimit": 1, "kenum": 1, "kfirst": 1, "kunion": 2, "joinlb": 2}
 
 
 def emit(t):
@@ -115,11 +122,11 @@ def emit(t):
             if k not in ("sing", "opt", "bsing"):
                 raise Bad("kind")
             return f"{e}.map(q!({cl}))", k, eout
-        if k == "sK":
+        if k in ("sK", "sKN"):
             if kcl is None:
                 raise Bad("keyed map")
             return f"{e}.map(q!({kcl}))", k, eout
-        if k not in ("sT", "sN", "bT"):
+        if k not in ("sT", "sN", "bT", "bN") or cl is None:
             raise Bad("kind")
         return f"{e}.map(q!({cl}))", k, eout
     if op in ("filter", "sfilter"):
@@ -131,11 +138,11 @@ def emit(t):
             if k not in ("sing", "opt"):
                 raise Bad("kind")
             return f"{e}.filter(q!({cl}))", "opt", el
-        if k == "sK":
+        if k in ("sK", "sKN"):
             if kcl is None:
                 raise Bad("keyed filter")
             return f"{e}.filter(q!({kcl}))", k, el
-        if k not in ("sT", "sN", "bT"):
+        if k not in ("sT", "sN", "bT", "bN"):
             raise Bad("kind")
         return f"{e}.filter(q!({cl}))", k, el
     if op == "flatmap":
@@ -178,9 +185,9 @@ def emit(t):
         eb, kb, lb = emit(kids[1])
         if ka not in STREAM or kb not in STREAM:
             raise Bad("kinds")
-        if ka == "sK":
+        if ka in ("sK", "sKN"):
             ea = f"{ea}.entries()"
-        if kb == "sK":
+        if kb in ("sK", "sKN"):
             eb = f"{eb}.entries()"
         if op == "union":
             if la != lb:
@@ -209,14 +216,14 @@ def emit(t):
     if op == "kfold":
         e, k, el = emit(kids[0])
         comm, i, f = FOLDF[arg]
-        if el != "P" or k not in ("sT", "sK"):
+        if el != "P" or not (k in ("sT", "sK") or (k == "sKN" and comm)):
             raise Bad("kfold")
-        src = e if k == "sK" else f"{e}.into_keyed()"
+        src = e if k in ("sK", "sKN") else f"{e}.into_keyed()"
         return f"{src}.fold(q!({i}), q!({f}))", "ksing", "P"
     if op == "foldb":
         e, k, el = emit(kids[0])
         comm, i, f = FOLDF[arg]
-        if el != "I" or k != "bT":
+        if el != "I" or not (k == "bT" or (k == "bN" and comm)):
             raise Bad("foldb")
         return f"{e}.fold(q!({i}), q!({f}))", "bsing", "I"
     if op == "xsing":
@@ -246,6 +253,44 @@ def emit(t):
         if la != lb:
             raise Bad("notinb elem")
         return f"{ea}.filter_not_in({eb})", ka, la
+    if op in ("kreduce", "klimit", "kenum", "kfirst"):
+        e, k, el = emit(kids[0])
+        if el != "P" or k not in ("sT", "sK", "sKN"):
+            raise Bad(op)
+        src = e if k in ("sK", "sKN") else f"{e}.into_keyed()"
+        if op == "kreduce":
+            # KeyedStream::reduce -> HydroNode::ReduceKeyed -> reduce_keyed::<'static>
+            if k == "sKN" and arg not in REDCOMM:
+                raise Bad("kreduce needs a commutativity proof")
+            return f"{src}.reduce(q!({REDF[arg]}))", "ksing", "P"
+        if k == "sKN":
+            raise Bad(op + " needs ordered values")
+        if op == "klimit":
+            # KeyedStream::limit = generator (Yield / Return at the n-th / Break afterwards)
+            return f"{src}.limit(q!({int(arg)}usize))", "sK", "P"
+        if op == "kenum":
+            # KeyedStream::enumerate = scan with a per-key counter
+            return f"{src}.enumerate()", "sK", "J"
+        # KeyedStream::first = fold_early_stop (generator: Return on the first value) + map(unwrap);
+        # a keyed singleton with bounded values, observed through entries()
+        return f"{src}.first().entries()", "sN", "P"
+    if op == "kunion":
+        # KeyedStream::merge_unordered: values of one key from both sides interleave -> NoOrder values
+        ea, ka, la = emit(kids[0])
+        eb, kb, lb = emit(kids[1])
+        if la != "P" or lb != "P" or ka not in ("sT", "sK", "sKN") or kb not in ("sT", "sK", "sKN"):
+            raise Bad("kunion")
+        sa = ea if ka in ("sK", "sKN") else f"{ea}.into_keyed()"
+        sb = eb if kb in ("sK", "sKN") else f"{eb}.into_keyed()"
+        return f"{sa}.merge_unordered({sb})", "sKN", "P"
+    if op == "joinlb":
+        # Stream::join with a top-level BOUNDED left side and an UNBOUNDED right side: HydroNode::Join
+        # (join_multiset<'static,'static> -> multiset_delta), result typed with the LEFT side's boundedness
+        ea, ka, la = emit(kids[0])
+        eb, kb, lb = emit(kids[1])
+        if ka != "bT" or kb not in ("sT", "sN") or la != "P" or lb != "P":
+            raise Bad("joinlb")
+        return f"{ea}.join({eb})", "bN", "J"
     raise Bad("op " + op)
 
 
@@ -255,9 +300,9 @@ OBS = "nondet!(/** observer: the harness looks at the collection once per tick *
 def finish(expr, kind):
     if kind == "sT" or kind == "bT":
         return f"{expr}.embedded_output(\"out\");"
-    if kind == "sN":
+    if kind in ("sN", "bN"):
         return f"{expr}.assume_ordering::<TotalOrder>({OBS}).embedded_output(\"out\");"
-    if kind == "sK":
+    if kind in ("sK", "sKN"):
         return f"{expr}.entries().assume_ordering::<TotalOrder>({OBS}).embedded_output(\"out\");"
     if kind in ("sing", "opt"):
         return f"{expr}.snapshot(&tick, {OBS}).all_ticks().embedded_output(\"out\");"
@@ -377,7 +422,13 @@ def rand_term(rng, depth, want):
             return ["xsing"] + rand_term(rng, depth - 1, ("T", "I")) + \
                 ["foldb:" + rng.choice(["sum", "poly"]), "const:" + ",".join(str(rng.randint(0, 4)) for _ in range(rng.randint(1, 3)))]
     if kindc == "K":
-        c = rng.choice(["kscan", "kscan", "vinc", "vodd"] if depth > 0 else ["kscan"])
+        c = rng.choice(["kscan", "kscan", "vinc", "vodd", "klimit", "kenumidx"] if depth > 0 else ["kscan", "klimit"])
+        if c == "klimit":
+            sub = rand_term(rng, depth - 1, ("K", "P")) if (depth > 0 and rng.random() < 0.3) else rand_term(rng, depth - 1, ("T", "P"))
+            return ["klimit:" + str(rng.randint(0, 3))] + sub
+        if c == "kenumidx":
+            sub = rand_term(rng, depth - 1, ("K", "P")) if rng.random() < 0.3 else rand_term(rng, depth - 1, ("T", "P"))
+            return ["map:kidx", "kenum"] + sub
         if c == "kscan":
             sub = rand_term(rng, depth - 1, ("K", "P")) if (depth > 0 and rng.random() < 0.3) else rand_term(rng, depth - 1, ("T", "P"))
             return ["kscan:" + rng.choice(["runsum", "stop"])] + sub
@@ -410,7 +461,8 @@ def rand_term(rng, depth, want):
 
 
 def rand_program(rng):
-    root = rng.choice(["T", "T", "S", "S", "S", "K", "fold", "foldN", "reduce", "kfold", "kfoldK", "sval"])
+    root = rng.choice(["T", "T", "S", "S", "S", "K", "K", "fold", "foldN", "reduce", "kfold", "kfoldK", "sval",
+                       "kreduce", "kreduceK", "kfirst"])
     d = rng.randint(1, 3)
     if root == "T":
         return rand_term(rng, d, ("T", rng.choice(["I", "P"])))
@@ -428,6 +480,13 @@ def rand_program(rng):
         return ["kfold:" + rng.choice(["sum", "poly", "cnt"])] + rand_term(rng, d, ("T", "P"))
     if root == "kfoldK":
         return ["kfold:" + rng.choice(["sum", "poly"])] + rand_term(rng, d, ("K", "P"))
+    if root == "kreduce":
+        return ["kreduce:" + rng.choice(["rsum", "rpoly", "rlast", "rmin"])] + rand_term(rng, d, ("T", "P"))
+    if root == "kreduceK":
+        return ["kreduce:" + rng.choice(["rsum", "rpoly", "rmax"])] + rand_term(rng, d, ("K", "P"))
+    if root == "kfirst":
+        sub = rand_term(rng, d, ("K", "P")) if rng.random() < 0.5 else rand_term(rng, d, ("T", "P"))
+        return ["kfirst"] + sub
     if root == "sval":
         inner = ["fold:" + rng.choice(["sum", "poly"])] + rand_term(rng, d - 1, ("T", "I"))
         return [rng.choice(["smap:inc", "smap:dbl", "sfilter:even", "sfilter:pos"])] + inner
@@ -683,10 +742,58 @@ map:idx enumerate flatmap:dup in0
 """.strip().splitlines()
 
 
+HAND_C29B = """
+kreduce:rsum map:kv3 in0
+kreduce:rpoly map:kv3 in0
+kreduce:rlast map:kv3 map:inc in0
+kreduce:rmax kscan:runsum map:kv3 in0
+kreduce:rpoly klimit:2 map:kv3 in0
+klimit:2 map:kv3 in0
+klimit:1 map:kv3 in0
+klimit:0 map:kv3 in0
+klimit:3 kscan:runsum map:kv3 in0
+kscan:runsum klimit:2 map:kv3 in0
+kscan:stop klimit:3 map:kv3 filter:pos in0
+kenum map:kv3 in0
+map:kidx kenum map:kv3 in0
+kenum klimit:2 map:kv3 filter:pos in0
+kfold:poly map:kidx kenum map:kv3 in0
+kfirst map:kv3 in0
+kfirst kscan:runsum map:kv3 in0
+kfirst filter:vodd map:kv3 in0
+fold:cnt map:snd kfirst map:kv3 in0
+klimit:2 map:kv3 chain const:4,1 in0
+""".strip().splitlines()
+
+# keyed streams whose values are NoOrder (merge_unordered of keyed streams)
+HAND_C28N = """
+kunion map:kv3 in0 map:kv3 in1
+kfold:sum kunion map:kv3 in0 map:kv3 in1
+kfold:maxf kunion map:kv3 in0 kscan:runsum map:kv3 in1
+kfold:cnt map:vinc kunion map:kv3 in0 map:kv3 in1
+kreduce:rsumc kunion map:kv3 in0 map:kv3 in1
+kreduce:rmaxc filter:vodd kunion map:kv3 in0 map:kv3 in1
+kfold:sum kunion kunion map:kv3 in0 map:kv3 in1 map:kv3 map:dbl in0
+map:flat join kunion map:kv3 in0 map:kv3 in1 map:kv3 in0
+kfold:sum kunion klimit:2 map:kv3 in0 map:kv3 in1
+""".strip().splitlines()
+
+# Stream::join of a top-level bounded stream with an unbounded one (typed Bounded by the API)
+HAND_F282 = """
+joinlb map:kv3 const:0,1,2 map:kv3 in0
+foldb:cnt map:add2 map:flat joinlb map:kv3 const:0,1,2 map:kv3 in0
+foldb:sum map:add2 map:flat joinlb map:kv3 const:0,1,5 map:kv3 in0
+""".strip().splitlines()
+
+KEYED_OPS = ("kscan", "kfold", "kreduce", "klimit", "kenum", "kfirst")
+
+
 def interleave_ok(tokens):
     """per-key results must not change under key-respecting shuffles of in0: a keyed operator whose input is
     `map:kv3` over element-wise residue-class-preserving stages of in0 only"""
-    if not any(t.split(":")[0] in ("kscan", "kfold") for t in tokens):
+    if not any(t.split(":")[0] in KEYED_OPS for t in tokens):
+        return False
+    if any(t.split(":")[0] in ("kunion", "joinlb") for t in tokens):
         return False
     if "in1" in tokens or tokens.count("in0") != 1:
         return False
@@ -694,7 +801,7 @@ def interleave_ok(tokens):
     for t in tokens:
         op, _, arg = t.partition(":")
         if not seen_kv3:
-            if op in ("kscan", "kfold") or (op == "map" and arg == "vinc") or (op == "filter" and arg == "vodd"):
+            if op in KEYED_OPS or (op == "map" and arg in ("vinc", "kidx")) or (op == "filter" and arg == "vodd"):
                 continue
             if op == "map" and arg == "kv3":
                 seen_kv3 = True
@@ -711,7 +818,11 @@ def tags_for(toks, base):
     tags = [base]
     kind = emit(parse(toks))[1]
     ops = [t.split(":")[0] for t in toks]
-    if kind in ("sT", "sK") or any(o in ("kscan", "kfold") for o in ops):
+    if "joinlb" in ops:
+        tags.append("f282")
+    if kind == "sKN" or "kunion" in ops:
+        tags.append("c28n")
+    elif kind in ("sT", "sK") or any(o in KEYED_OPS for o in ops):
         tags.append("c29")
     if interleave_ok(toks):
         tags.append("c29x")
@@ -754,10 +865,14 @@ def build_corpus():
         toks = line.split()
         lines, k = temit_program(toks)
         progs.append(("c30", k, " ".join(toks)))
-    for line in HAND_C28B:
+    for line in HAND_C28B + HAND_C29B + HAND_C28N + HAND_F282:
         toks = line.split()
+        s = " ".join(toks)
+        if s in seen:
+            continue
+        seen.add(s)
         e, k, el = emit(parse(toks))
-        progs.append((tags_for(toks, "c28"), k, " ".join(toks)))
+        progs.append((tags_for(toks, "c28"), k, s))
     return progs
 
 
@@ -804,8 +919,8 @@ def render(progs):
 def main():
     progs = build_corpus()
     rs, lst, bld = render(progs)
-    targets = [(os.path.join(HERE, "flows", "src", "progs.rs"), rs), (os.path.join(HERE, "src", "proglist.rs"), lst),
-               (os.path.join(HERE, "src", "buildlist.rs"), bld)]
+    targets = [(os.path.join(HERE, "flows", "src", "progs.rs"), rs), (os.path.join(HERE, "progs", "src", "proglist.rs"), lst),
+               (os.path.join(HERE, "progs", "src", "buildlist.rs"), bld)]
     if "--check" in sys.argv:
         bad = [p for p, c in targets if not os.path.exists(p) or open(p).read() != c]
         if bad:
